@@ -120,7 +120,8 @@ def part_a(ctx):
              'oracles on the implementation: Grammar, teardown<=subscriptions, release-after-end, trace = Spec on hot cases; non-trivial = something delivered and at least one hot notification',
         assumptions=['logical semantics: each notification is processed to quiescence before the next one is issued (sources are hot probes pushed by the harness, or cold probes that play inside Subscribe); '
                      'the free-running goroutine runs are a search, not a proof: the micro-step (lock/atomic-level) model of DESIGN.md 5/C05 is not part of this slice',
-                     'MergeMap*: covered by the differential runs and the Spec oracle (Spec.heard/Spec.mergeAll); the Lean theorem covers Merge/MergeWith*/MergeAll over Just (static sources)'],
+                     'the Lean theorems are about hot sources (arbitrary arrival orders); runs with synchronous (cold) sources - Merge/Race over cold sources, sources that terminate inside Subscribe - are covered by the differential correspondence, the grammar theorem and the release oracle only',
+                     'MergeAll/MergeMap* theorem: the outer source never names the same inner source twice (a probe subscribed twice is outside the probe model)'],
         extra=dict(part_a=dict(cases_per_op=per_op, spec_oracle_cases=spec_checked, spec_known_class_hits=spec_known,
                                race_sync_winner_class_hits=leak_known, concurrent_search=conc)))
 
